@@ -84,9 +84,9 @@ func c10Run(in *bufio.Scanner, w *bufio.Writer) {
 
 func c10Spawn(bin, scenario string) string {
 	if bin == "" {
-		return "error:HX_RACE_BIN-not-set"
+		return "err:HX_RACE_BIN-not-set"
 	}
-	ctx, cancel := context.WithTimeout(context.Background(), 90*time.Second)
+	ctx, cancel := context.WithTimeout(context.Background(), HxScale(240*time.Second))
 	defer cancel()
 	cmd := exec.CommandContext(ctx, bin, "run", "C10CHILD")
 	cmd.Stdin = strings.NewReader("scenario " + scenario + "\n")
@@ -100,13 +100,13 @@ func c10Spawn(bin, scenario string) string {
 	case strings.Contains(text, "WARNING: DATA RACE"), strings.Contains(text, "fatal error: concurrent map"):
 		return "detected"
 	case ctx.Err() != nil:
-		return "error:timeout"
+		return "err:timeout"
 	case err != nil:
-		return "error:child-failed"
+		return "err:child-failed"
 	case strings.Contains(text, "scenario-finished"):
 		return "clean"
 	}
-	return "error:no-marker"
+	return "err:no-marker"
 }
 
 // ---- child (race build) ----------------------------------------------------
@@ -140,7 +140,7 @@ func c10Child(in *bufio.Scanner, w *bufio.Writer) {
 	for i := 0; i < 50; i++ {
 		set(fmt.Sprintf("seed%03d", i), "v")
 	}
-	deadline := time.Now().Add(3 * time.Second)
+	deadline := time.Now().Add(HxScale(3 * time.Second)) // length of the workload, not a limit
 	var wg sync.WaitGroup
 	run := func(f func(i int)) {
 		wg.Add(1)
